@@ -169,7 +169,7 @@ func c19Gen(t *rapid.T, owner string, dseq uint64, minDep int64) (*dtypes.MsgCre
 			}
 			return &g.Resources[rapid.IntRange(0, len(g.Resources)-1).Draw(t, "unit")]
 		}
-		switch rapid.IntRange(0, 14).Draw(t, "edit") {
+		switch rapid.IntRange(0, 15).Draw(t, "edit") {
 		case 0: // number of groups
 			n := rapid.SampledFrom([]int{0, 1, 2, cfg.MaxGroupCount - 1, cfg.MaxGroupCount, cfg.MaxGroupCount + 1, cfg.MaxGroupCount + 5}).Draw(t, "groupCount")
 			base := msg.Groups[0]
@@ -300,6 +300,34 @@ func c19Gen(t *rapid.T, owner string, dseq uint64, minDep int64) (*dtypes.MsgCre
 				u.Count = 4
 				note("g%d.mem=2^62 x4", gi)
 			}
+		case 15: // an amount outside [0, 2^64) whose low 64 bits look legal, compensated by a sibling unit so that the group total is legal
+			dim := rapid.IntRange(0, 2).Draw(t, "dim2")
+			lo := []uint64{uint64(cfg.MinUnitCPU), cfg.MinUnitMemory, cfg.MinUnitStorage}[dim]
+			legal := new(big.Int).SetUint64(lo * 3)
+			two64 := new(big.Int).Lsh(big.NewInt(1), 64)
+			var bad, comp *big.Int
+			if rapid.Bool().Draw(t, "negative") {
+				bad = new(big.Int).Neg(legal)                 // -3*min: |v| is legal
+				comp = new(big.Int).Mul(legal, big.NewInt(3)) // total = 2*legal > 0
+			} else {
+				bad = new(big.Int).Add(two64, new(big.Int).Mul(legal, big.NewInt(2))) // 2^64 + 6*min: low bits are legal
+				comp = new(big.Int).Neg(new(big.Int).Add(two64, legal))               // -(2^64 + 3*min): |v| mod 2^64 legal; total = 3*min
+			}
+			mk := func(v *big.Int) dtypes.Resource {
+				u := c19Unit(100, 16<<20, 64<<20, 1, 1)
+				val := akashtypes.ResourceValue{Val: sdk.NewIntFromBigInt(v)}
+				switch dim {
+				case 0:
+					u.Resources.CPU = &akashtypes.CPU{Units: val}
+				case 1:
+					u.Resources.Memory = &akashtypes.Memory{Quantity: val}
+				default:
+					u.Resources.Storage = &akashtypes.Storage{Quantity: val}
+				}
+				return u
+			}
+			g.Resources = []dtypes.Resource{mk(bad), mk(comp)}
+			note("g%d.dim%d=%s compensated by %s", gi, dim, bad, comp)
 		case 14: // uninitialised big integer (what a protobuf without the field decodes to is "0", a Go caller may pass nil)
 			if u := pickUnit(); u != nil {
 				u.Resources.CPU = &akashtypes.CPU{}
